@@ -126,6 +126,8 @@ impl<T: Clone + Copy + Number + Signed + PartialOrd + Neg<Output = T>> Banded<T>
                     au.swap_elem( k, j, i, j )
                 }
             }
+            // A zero pivot means the column is already eliminated (singular matrix)
+            if au[(k, 0)] == T::zero() { continue; }
             for i in k + 1..l {
                 //dum = au[ i ][ 0 ] / au[ k ][ 0 ];
                 dum = au[(i, 0)] / au[(k, 0)];
